@@ -12,4 +12,4 @@ def main (args : List String) : IO UInt32 := do
   | ["ports"] => DrvPorts.main; return 0
   | ["outline"] => DrvOutline.main; return 0
   | ["persister"] => DrvPersister.main; return 0
-  | _ => IO.eprintln "usage: pmodel <pm|expose|ports>"; return 2
+  | _ => IO.eprintln "usage: pmodel <pm|expose|ports|outline|persister>"; return 2
